@@ -22,7 +22,7 @@ THEOREMS = [_A + n for n in [
     "legacy_zero_rtt_rejected_poisons_pn",            # loss (B) on the code BEFORE the pn-store repair (Session.Legacy)
     "zero_rtt_rejected_leaves_session",               # (B) now: the rejected packet leaves the session as it was
     "ExZr.zero_rtt_before_client_hello_counterexample",
-    "ExZr.legacy_zero_rtt_first_offered_suite_counterexample",   # old code: 0-RTT lost AND the following 1-RTT packet
+    "ExZr.legacy_first_offered_suite_counterexample",   # old code: 0-RTT lost AND the following 1-RTT packet
     "ExZr.late_survives",                                        # repaired code: only the 0-RTT packet is lost
     "ExZr.zero_rtt_with_key_exported",
 ]] + [_B + n for n in [
